@@ -54,10 +54,26 @@ def gen_stack(rnd, optional_marks):
         n[0] += 1
         return f's{n[0]:03d}'
     items = []
+    if optional_marks and rnd.random() < 0.25:
+        # a field whose only root is missing, handed down through optional and plain fields, caches in between (C18)
+        x, y = rnd.sample(PUB, 2)
+        items.append({'t': 'transform', 'fields': {x: [fresh(), []]}, 'params': {}, 'inherit': [], 'optional': [], 'meta': []})
+        items.append({'t': 'transform', 'fields': {y: [fresh(), [y]]}, 'params': {}, 'inherit': [x] if rnd.random() < 0.8 else True,
+                      'optional': [y] if rnd.random() < 0.85 else [], 'meta': []})
+        for _ in range(rnd.randint(0, 3)):
+            r = rnd.random()
+            if r < 0.4:
+                items.append({'t': 'ram', 'names': None if rnd.random() < 0.5 else rnd.sample([x, y], rnd.randint(1, 2)), 'size': None})
+            else:
+                args = [y] if rnd.random() < 0.7 else [y, x]
+                items.append({'t': 'transform', 'fields': {y: [fresh(), args]}, 'params': {}, 'inherit': True if rnd.random() < 0.7 else [x],
+                              'optional': [y] if rnd.random() < 0.3 else [], 'meta': []})
+        return items
     if rnd.random() < 0.35:
         items.append({'t': 'src', 'fields': {f: fresh() for f in rnd.sample(PUB, rnd.randint(1, 3))}, 'ids_sym': fresh()})
+    p_cache = 0.3 if optional_marks else 0.15
     for _ in range(rnd.randint(1, 4)):
-        if items and rnd.random() < 0.15:
+        if items and rnd.random() < p_cache:
             items.append({'t': 'ram', 'names': None if rnd.random() < 0.5 else rnd.sample(PUB, rnd.randint(1, 3)), 'size': None})
         elif rnd.random() < 0.12:
             names = rnd.sample(PUB, rnd.randint(1, 3))          # keyword order as drawn, deliberately not sorted
@@ -66,6 +82,9 @@ def gen_stack(rnd, optional_marks):
             items.append(gen_layer(rnd, fresh, optional_marks, ('ids', 'id') if items and items[0]['t'] == 'src' else ()))
     if items[0]['t'] == 'ram':
         items = items[1:] or [gen_layer(rnd, fresh, optional_marks)]
+    # a cache at the very end makes whatever it touches optional (C18)
+    if optional_marks and items[-1]['t'] != 'ram' and rnd.random() < 0.3:
+        items.append({'t': 'ram', 'names': None if rnd.random() < 0.6 else rnd.sample(PUB, rnd.randint(1, 3)), 'size': None})
     return items
 
 
@@ -92,14 +111,68 @@ def gen_dataset_stack(rnd):
             items.append({'t': 'filter', 'pred': ['t005', [f]]})
         elif r < 0.4:
             items.append({'t': 'checkids'})
+        elif r < 0.47 and sum(1 for x in items if x['t'] == 'split') < 2:
+            items.append({'t': 'split'})
+            if rnd.random() < 0.6:          # the same Split class twice in one flat sequence
+                if rnd.random() < 0.5:
+                    items.append({'t': 'transform', 'fields': {f: [fresh(), [f]]}, 'params': {}, 'inherit': True, 'optional': [], 'meta': []})
+                items.append({'t': 'split'})
         elif r < 0.55:
+            it = {'t': 'const', 'cls': rnd.choice(['Scale', 'Shift']), 'value': rnd.choice(CONSTS)}
+            if it['cls'] == 'Shift' and rnd.random() < 0.5:
+                it['flag'] = rnd.choice(CONSTS)
+            items.append(it)
+        elif r < 0.62:
             items.append({'t': 'ram', 'names': None, 'size': None})
         else:
             items.append({'t': 'transform', 'fields': {f: [fresh(), [f]]}, 'params': {}, 'inherit': True, 'optional': [], 'meta': []})
     return items
 
 
+class Scale(Transform):
+    """a class-based layer with a constructor argument: instances of one class must not influence each other"""
+    __inherit__ = True
+    _factor: object
+
+    a = Function(P.sym('s140'), 'a', '_factor')
+
+
+class Shift(Transform):
+    __inherit__ = True
+    _by: object
+    _flag: object = False
+
+    b = Function(P.sym('s141'), 'b', '_by', '_flag')
+
+
+CONSTS = [2, 2.0, True, 1, 1.0, 0, False, 0.0, 'x']
+
+
+def _halves(id):
+    return [(f'{id}L', 'L'), (f'{id}R', 'R')]
+
+
+def make_split():
+    from connectome import Split
+
+    class Halves(Split):
+        __inherit__ = True
+
+        def __split__(id):
+            return _halves(id)
+    return Halves
+
+
+HALVES = []
+
+
 def build_item(d):
+    if d['t'] == 'split':
+        if not HALVES:
+            HALVES.append(make_split())
+        return HALVES[0]()
+    if d['t'] == 'const':
+        return Scale(factor=d['value']) if d['cls'] == 'Scale' else Shift(by=d['value'], **({'flag': d['flag']} if 'flag' in d else {}))
     if d['t'] == 'src':
         its = [('ids', meta(Function(P.sym(d['ids_sym']))))]
         for name, s in d['fields'].items():
@@ -203,6 +276,20 @@ def main():
             objs.append(objs[-1])
             items.append(items[-1])
             reuse = len(objs) - 1
+        # instances of one class with ==-equal arguments of different types keep their own argument
+        wrong = []
+        for d, o in zip(items, objs):
+            if d['t'] == 'const':
+                f = 'a' if d['cls'] == 'Scale' else 'b'
+                try:
+                    got = o._compile(f)(**{f: 'IN'})
+                except BaseException as e:  # noqa
+                    got = 'ERR:' + type(e).__name__
+                want = (f"$s140('IN',{d['value']!r})" if d['cls'] == 'Scale' else f"$s141('IN',{d['value']!r},{d.get('flag', False)!r})")
+                if got != want:
+                    wrong.append({'item': d, 'got': got, 'want': want})
+        # what every operand lists, serves, returns and treats as a property, BEFORE anything is composed
+        before = [observe(o) if hasattr(o, '_compile') else None for o in objs]
         try:
             layer = objs[0]
             for o in objs[1:]:
@@ -210,9 +297,13 @@ def main():
             obs = observe(layer)
         except BaseException as e:  # noqa
             obs = {'error': f'{type(e).__name__}: {e}'[:200]}
-        case = {'items': items, 'obs': obs, 'reuse': reuse, 'unmodelled': bool(unmodelled)}
+        case = {'items': items, 'obs': obs, 'reuse': reuse, 'unmodelled': bool(unmodelled), 'const_wrong': wrong}
+        try:
+            Chain(*objs)
+        except BaseException:  # noqa
+            pass
+        case['operands_unchanged'] = before == [observe(o) if hasattr(o, '_compile') else None for o in objs]
         if a.brackets:
-            before = [observe(o) if hasattr(o, '_compile') else None for o in objs]
             vs = []
             for name, mk in brackets(objs, rnd):
                 try:
@@ -221,7 +312,7 @@ def main():
                     vs.append({'name': name, 'obs': {'error': f'{type(e).__name__}: {e}'[:200]}})
             after = [observe(o) if hasattr(o, '_compile') else None for o in objs]
             case['variants'] = vs
-            case['operands_unchanged'] = before == after
+            case['operands_unchanged'] = case['operands_unchanged'] and before == after
         cases.append(case)
     dump({'cases': cases}, a.out)
 
